@@ -139,6 +139,11 @@ def descriptors_for(keys: Keys, net: str, rnd: random.Random, thorough: bool) ->
         out.append((f"tr({t})", {"f": "tr", "k": a, "tree": {"none": 1}}, False))
         out.append((f"rawtr({t})", {"f": "rawtr", "k": a}, False))
         out.append((f"tr({ti},pk({t}))", {"f": "tr", "k": ai, "tree": {"s": {"f": "pk", "k": a}}}, False))
+    # a group of one is still aggregated (KeyAgg of a single key is not that key), and a group that names one key twice is a group of two
+    for parts, path, wild in ((fixed[:1], [], 0), (ranged[:1], [], 0), (fixed[:1], [3], 1), ([fixed[0], fixed[0]], [], 0)):
+        t, a = M(parts, path, wild)
+        out.append((f"tr({t})", {"f": "tr", "k": a, "tree": {"none": 1}}, False))
+        out.append((f"tr({ti},pk({t}))", {"f": "tr", "k": ai, "tree": {"s": {"f": "pk", "k": a}}}, False))
     t2, a2 = M(fixed[:2], [1], 1)
     out.append((f"tr({t2},{{pk({leaves[0][0][3:-1]}),pk({M(ranged[:2], [], 0)[0]})}})", {"f": "tr", "k": a2, "tree": {"l": leaves[0][1], "r": {"s": {"f": "pk", "k": M(ranged[:2], [], 0)[1]}}}}, False))
     # addr() and raw()
@@ -236,6 +241,20 @@ def record_descriptors(run: Run, rnd: random.Random, thorough: bool, evs: list[d
                     w = w.replace(alt, alt[1:-1].split(";")[j])
             want.append(D.strip_checksum(w) if "#" in w else w)
         evs.append({"op": "agree", "what": "multipath expansion", "a": "|".join(D.strip_checksum(x) if "#" in x else x for x in got) if not isinstance(got, str) else got, "b": "|".join(want)})
+        # the same text carrying its checksum expands alike; carrying another checksum it is refused (the checksum covers the <a;b> spelling)
+        cs = outcome(lambda: D.checksum(text))
+        if not isinstance(cs, str) or len(cs) != 8:
+            evs.append({"op": "agree", "what": "checksum of a multipath text", "a": str(cs), "b": "8 characters", "text": text})
+        else:
+            got_cs = outcome(lambda: D.multipath_descriptors(text + "#" + cs))
+            evs.append({"op": "agree", "what": "multipath expansion of the text with its checksum", "a": "|".join(D.strip_checksum(x) if "#" in x else x for x in got_cs) if not isinstance(got_cs, str) else got_cs,
+                        "b": "|".join(want), "text": text})
+            for pos_ in (0, 3, 7):
+                bad_cs = cs[:pos_] + ("q" if cs[pos_] != "q" else "p") + cs[pos_ + 1:]
+                got_bad = outcome(lambda: D.multipath_descriptors(text + "#" + bad_cs))
+                evs.append({"op": "agree", "what": f"multipath expansion of the text with a wrong checksum (character {pos_})", "a": got_bad if isinstance(got_bad, str) else "expanded", "b": "refused", "text": text})
+            got_short = outcome(lambda: D.multipath_descriptors(text + "#" + cs[:7]))
+            evs.append({"op": "agree", "what": "multipath expansion of the text with a short checksum", "a": got_short if isinstance(got_short, str) else "expanded", "b": "refused", "text": text})
         # every expansion is a single-path descriptor that parses and derives what the same text derives written by hand
         for x, w in zip(got if not isinstance(got, str) else [], want):
             a = outcome(lambda: [s_.script.hex() for s_ in D.parse(x, "mainnet", {}).script_pub_keys(3, None)] if "xprv" not in x else [s_.script.hex() for s_ in (lambda pk: D.parse(x, "mainnet", pk).script_pub_keys(3, pk))({})])
@@ -254,6 +273,25 @@ def record_wallets(run: Run, rnd: random.Random, thorough: bool, evs: list[dict[
 
     stats = {"wallet_scripts": 0, "positions": 0}
     keys = Keys(rnd)
+
+    def history(w: Any, name: str, first: Any, second: Any) -> None:
+        """position_of is a function of (wallet, script, last_index) and of nothing that was asked before: the same script looked for with a bound below
+        its index, at its index, below again, and a foreign script asked twice; `first`/`second` name two positions of the wallet."""
+        foreign = bytes.fromhex("0014" + "ef" * 20)
+        for (b_, i_) in (first, second):
+            spk_ = outcome(lambda: w.script_pub_key(b_, i_))
+            if isinstance(spk_, str):
+                continue
+            for bound, want in ((i_ - 1, None), (i_, (b_, i_)), (i_ - 1, None), (i_ + 3, (b_, i_)), (0, (b_, i_) if i_ == 0 else None)):
+                if bound < 0:
+                    continue
+                pos = outcome(lambda: w.position_of(spk_, bound))
+                evs.append({"op": "agree", "what": f"{name}.position_of(script_pub_key({b_}, {i_}), last_index {bound}) after earlier lookups", "a": str(pos), "b": str(want)})
+                stats["positions"] += 1
+        for _ in range(2):
+            pos = outcome(lambda: w.position_of(foreign, 4))
+            evs.append({"op": "agree", "what": f"{name}.position_of(a foreign script), asked again", "a": str(pos), "b": "None"})
+
     for net in ("mainnet", "testnet"):
         coin = 0 if net == "mainnet" else 1
         root = keys.roots[net][0]
@@ -265,6 +303,7 @@ def record_wallets(run: Run, rnd: random.Random, thorough: bool, evs: list[dict[
                 evs.append({"op": "agree", "what": f"BIP32KeyWallet({path})", "a": w, "b": "built"})
                 continue
             acct = bip32.derive(root, path)
+            history(w, f"BIP32KeyWallet({path})", (0, 7), (1, 2))
             for b in (0, 1):
                 for i in (0, 1, 5, 65535):          # (65535 is the last index bip32.derive_from_account walks to)
                     k = {"node": keys.payload(acct), "path": [nat(b)], "wild": 1}
@@ -288,6 +327,7 @@ def record_wallets(run: Run, rnd: random.Random, thorough: bool, evs: list[dict[
             if isinstance(w, str):
                 evs.append({"op": "agree", "what": f"DescriptorWallet(labels {labels})", "a": w, "b": "built"})
                 continue
+            history(w, f"DescriptorWallet(labels {labels})", (labels[0], 6), (labels[-1], 1))
             for lab in labels:
                 for i in (0, 4):
                     spk = w.script_pub_key(lab, i)
@@ -306,6 +346,7 @@ def record_wallets(run: Run, rnd: random.Random, thorough: bool, evs: list[dict[
                 if isinstance(w, str):
                     evs.append({"op": "agree", "what": f"ScriptWallet({stype}, {order}, {net})", "a": w, "b": "built"})
                     continue
+                history(w, f"ScriptWallet({stype}, {order})", (0, 3), (1, 1))
                 for b in (0, 1):
                     for i in (0, 3):
                         spk = outcome(lambda: w.script_pub_key(b, i))
